@@ -592,8 +592,8 @@ theorem openTree_ok (C : Crypto) (bs : Array Bytes) (ht : HeaderTree) (f : File)
     missing below the flushed length is clear; no bit at or beyond the final length is set), then opening
     succeeds and the opened state satisfies the replay invariant for `a` — bitfield exact, hint exact. -/
 theorem reopen_full (C : Crypto) (hC : HashWF C) (hTw : TreeWF C) (d : Disk) (ost : Oplog.State) (hf : Header) (es : List Entry)
-    (a0 a : Abs)
-    (hlog : Oplog.openLog none d.oplog.toList = .ok ⟨ost, hf, [], es⟩)
+    (a0 a : Abs) (ops : List SOp) (hops : ∀ op ∈ ops, op.store = .oplog)
+    (hlog : Oplog.openLog none d.oplog.toList = .ok ⟨ost, hf, ops, es⟩)
     (hlen : hf.tree.length = a0.blocks.size) (hsig : hf.tree.signature = [] ∨ hf.tree.signature.length = 64)
     (hshape : HdrShape hf) (hoks : ∀ e ∈ es, EntryOK e)
     (hN : NodesOK C a0.blocks {} d.tree)
@@ -604,8 +604,13 @@ theorem reopen_full (C : Crypto) (hC : HashWF C) (hTw : TreeWF C) (d : Disk) (os
     (hlt : ∀ i, a0.held i = true → i < a0.blocks.size)
     (hcontig : (∀ i, i < hf.contiguous → a0.held i = true) ∧ a0.held hf.contiguous = false)
     (hsmall0 : Small a0) (htrace : Trace C a0 es a) :
-    ∃ h' t' b', Core.openCore C none d = .ok ({ publicKey := h'.publicKey, secret := h'.secret, oplog := ost, header := h', tree := t', bitfield := b', skipFlush := 0 }, [])
+    ∃ h' t' b', Core.openCore C none d = .ok ({ publicKey := h'.publicKey, secret := h'.secret, oplog := ost, header := h', tree := t', bitfield := b', skipFlush := 0 }, ops)
       ∧ RInv C t' b' h' d.tree d.bitfield a [] a.blocks.size ∧ h'.secret = hf.secret := by
+  -- the stores after the operations `Oplog::open` issues (a truncate of the oplog at most)
+  have hd1t : (d.applyAll ops).tree = d.tree := tree_of_applyAll _ _ (fun op hop => by rw [hops op hop]; decide)
+  have hd1b : (d.applyAll ops).bitfield = d.bitfield := by
+    have := Journal.applyAll_other d ops .bitfield (fun op hop => by rw [hops op hop]; decide)
+    simpa [Disk.get] using this
   obtain ⟨t0, ht0, hroots0, hunf0, hfork0⟩ := openTree_ok C a0.blocks hf.tree d.tree hN hlen hsmall0.1 hsig
   have hN0 : NodesOK C a0.blocks t0 d.tree := by
     intro dd o hb
@@ -637,15 +642,18 @@ theorem reopen_full (C : Crypto) (hC : HashWF C) (hTw : TreeWF C) (d : Disk) (os
     shape := hshape
     forkU := by rw [hfork0]; exact hshape.fork
     dirty := fun i hne => absurd rfl hne }
-  obtain ⟨h', t', b', hrep, hinv', hs', _⟩ := replay_ok C hC hTw d ost a.blocks.size hsmall.1 es hf t0 (Bitfield.ofFile d.bitfield)
-    a0 a hinv0 htrace hoks (Nat.le_refl _)
+  rw [← hd1t, ← hd1b] at hinv0
+  obtain ⟨h', t', b', hrep, hinv', hs', _⟩ := replay_ok C hC hTw (d.applyAll ops) ost a.blocks.size hsmall.1 es hf t0
+    (Bitfield.ofFile (d.applyAll ops).bitfield) a0 a hinv0 htrace hoks (Nat.le_refl _)
+  rw [hd1t, hd1b] at hinv'
   refine ⟨h', t', b', ?_, hinv', hs'⟩
-  simp only [Core.openCore, hlog, applyAll_nil, ht0, hrep]
+  rw [← hd1t] at ht0
+  simp only [Core.openCore, hlog, ht0, hrep]
 
 /-- … hence a core that represents `a`, given that the data store holds `a`'s held blocks -/
 theorem reopen_refines (C : Crypto) (hC : HashWF C) (hTw : TreeWF C) (d : Disk) (ost : Oplog.State) (hf : Header) (es : List Entry)
-    (a0 a : Abs) (sk : Bytes)
-    (hlog : Oplog.openLog none d.oplog.toList = .ok ⟨ost, hf, [], es⟩)
+    (a0 a : Abs) (sk : Bytes) (ops : List SOp) (hops : ∀ op ∈ ops, op.store = .oplog)
+    (hlog : Oplog.openLog none d.oplog.toList = .ok ⟨ost, hf, ops, es⟩)
     (hlen : hf.tree.length = a0.blocks.size) (hsig : hf.tree.signature = [] ∨ hf.tree.signature.length = 64)
     (hsec : hf.secret = some sk) (hshape : HdrShape hf) (hoks : ∀ e ∈ es, EntryOK e)
     (hN : NodesOK C a0.blocks {} d.tree)
@@ -658,20 +666,22 @@ theorem reopen_refines (C : Crypto) (hC : HashWF C) (hTw : TreeWF C) (d : Disk) 
     (hsmall0 : Small a0) (htrace : Trace C a0 es a)
     (hdata : ∀ i, a.held i = true → ∀ k, k < sz a.blocks i →
       psum a.blocks i + k < d.data.size ∧ d.data.byte (psum a.blocks i + k) = (a.blocks.getD i []).getD k 0) :
-    ∃ c', Core.openCore C none d = .ok (c', []) ∧ Rep C c' d a := by
-  obtain ⟨h', t', b', hopen, hinv', hs'⟩ := reopen_full C hC hTw d ost hf es a0 a hlog hlen hsig hshape hoks hN hstable hkept hlow
+    ∃ c', Core.openCore C none d = .ok (c', ops) ∧ Rep C c' (d.applyAll ops) a := by
+  obtain ⟨h', t', b', hopen, hinv', hs'⟩ := reopen_full C hC hTw d ost hf es a0 a ops hops hlog hlen hsig hshape hoks hN hstable hkept hlow
     hbN hlt hcontig hsmall0 htrace
   obtain ⟨hbits, hfm⟩ := rinv_final C t' b' h' d.tree d.bitfield a _ hinv'
+  have hd1t : (d.applyAll ops).tree = d.tree := tree_of_applyAll _ _ (fun op hop => by rw [hops op hop]; decide)
+  have hd1d : (d.applyAll ops).data = d.data := data_of_applyAll _ _ (fun op hop => by rw [hops op hop]; decide)
   refine ⟨_, hopen, ?_⟩
   exact {
     writer := by simp [hs', hsec]
     tree := hinv'.tree
-    nodes := hinv'.nodes
+    nodes := by rw [hd1t]; exact hinv'.nodes
     mapwf := hinv'.mapwf
     bits := hbits
     heldLt := hinv'.heldLt
     contig := hfm
-    data := hdata
+    data := by rw [hd1d]; exact hdata
     small := trace_small C a0 a es htrace hsmall0 }
 
 end HC.Reopen
